@@ -101,6 +101,9 @@ pub fn alphabet(inst: usize, allowed: &[u16], ids: &[u16], layouts: usize) -> Ve
     for id in ids {
         add(format!("T-all-zero-lengths(IPFIX,{})", id), ipm(vec![IpfixSet::Tpl(vec![IpfixTpl { id: *id, fields: vec![fs(1, 0), fs(2, 0)] }], 0)]), None, 10, false);
         add(format!("OT-all-zero-lengths(IPFIX,{})", id), ipm(vec![IpfixSet::OptTpl(vec![IpfixOptTpl { id: *id, scope_count: 1, fields: vec![fs(149, 0), fs(41, 0)] }], 0)]), None, 10, false);
+        // "withdrawal"-shaped records (field count 0): IPFIX rejects them; for V9 it is a (useless) latest definition
+        add(format!("T-no-fields(IPFIX,{})", id), ipm(vec![IpfixSet::Tpl(vec![IpfixTpl { id: *id, fields: vec![] }], 0)]), None, 10, false);
+        add(format!("T-no-fields(V9,{})", id), v9p(vec![V9Set::Tpl(vec![V9Tpl { id: *id, fields: vec![] }], 0)]), None, 9, true);
         add(format!("OT-no-fields(IPFIX,{})", id), ipm(vec![IpfixSet::OptTpl(vec![IpfixOptTpl { id: *id, scope_count: 0, fields: vec![] }], 0)]), None, 10, false);
     }
     // data sets that cannot hold a record (3 bytes, empty): like every data set they must leave the caches alone
